@@ -284,13 +284,16 @@ def check_c17(run):
 def gen_map_scripts(tier, seed, variant):
     rng = random.Random(seed)
     n = 48 if tier == "quick" else 160
-    return "".join(gen_map.make_script(rng, f"m{seed}_{i}") for i in range(n))
+    out = [gen_map.make_script(rng, f"m{seed}_{i}") for i in range(n)]
+    # collision runs with tombstones inside full groups and probes beyond them
+    out += [gen_map.make_run_script(rng, f"u{seed}_{i}") for i in range(n // 2)]
+    return "".join(out)
 
 def check_c01(run):
     return script_property(
         run, gen_map_scripts,
         relevant=lambda f: f.kind in ("A-FAIL", "CRASH") or (f.kind == "B-FAIL" and "Tags/Reach" in f.text),
-        rule="structured HashMap histories (fill / churn / tombstone / lookup / misc phases) under 8 hash-plan classes (well mixed, constant 0, constant MAX, 4 start positions, one tag, wrap-around positions, tag t vs t^1, sequential), key universes 6..130, drop and no-drop element types; every step: model_step(pre-state dump) = post-state dump bit for bit (level C), wf_check on the post-state (B), AssocSpec acceptor on the return value and contents (A). distinct = distinct (operation, pre-state, fault arming) triples",
+        rule="structured HashMap histories (fill / churn / tombstone / lookup / misc phases) under 8 hash-plan classes (well mixed, constant 0, constant MAX, 4 start positions, one tag, wrap-around positions, tag t vs t^1, sequential), key universes 6..130, drop and no-drop element types; plus collision-run scripts (9..57 keys sharing a probe start, removals inside the run, then every lookup / insert / entry API on keys stored beyond the tombstones and on absent keys, before and after a forced in-place rehash); every step: model_step(pre-state dump) = post-state dump bit for bit (level C), wf_check on the post-state (B), AssocSpec acceptor on the return value and contents (A). distinct = distinct (operation, pre-state, fault arming) triples",
         partial_note=None)
 
 
